@@ -188,6 +188,24 @@ fn cc(how: u8, children: Vec<Spec>) -> Spec {
   Spec::Concat { how, children }
 }
 
+/// bytes -> case (fuzz target `triple_c13`)
+pub fn case_from_bytes(data: &[u8]) -> Case {
+  let mut c = crate::from_bytes::Cur::new(data);
+  let g = GenCfg { max_children: 3, ..cfg() };
+  let n = 1 + c.below(3);
+  let inserts = (0..n).map(|_| c.u16()).collect();
+  let (a, b, cc3) = (crate::from_bytes::spec(&mut c, g.depth, g), crate::from_bytes::spec(&mut c, g.depth, g), crate::from_bytes::spec(&mut c, g.depth, g));
+  match normalize(Spec::Concat { how: 0, children: vec![a, b, cc3] }, g) {
+    Spec::Concat { mut children, .. } => {
+      let c3 = children.pop().unwrap();
+      let b = children.pop().unwrap();
+      let a = children.pop().unwrap();
+      Case { a, b, c: c3, inserts }
+    }
+    _ => unreachable!(),
+  }
+}
+
 impl Prop for C13 {
   type Case = Case;
   const ID: &'static str = "C13";
@@ -202,6 +220,13 @@ impl Prop for C13 {
   }
   fn legs(&self, _tier: Tier) -> Vec<Leg<Case>> {
     vec![Leg { name: "triples", source: Cases::Generated(Box::new(strategy), 80_000, 1_200_000) }]
+  }
+  fn stages(&self, ctx: &Ctx) -> Vec<Stage> {
+    if ctx.tier == Tier::Thorough {
+      crate::fuzz::campaigns("C13", &["triple_c13"], ctx)
+    } else {
+      vec![]
+    }
   }
   fn check(&self, case: &Case) -> CheckResult {
     let (a, b, c) = (case.a.clone(), case.b.clone(), case.c.clone());
